@@ -518,6 +518,9 @@ class PrinterLang:
 
     def call_function(self, fi, args, kwargs):
         fn = fi.node
+        if fi.cls is None and fi.name == "_indent" and len(args) == 2 and isinstance(args[0], (LangV, PyConst, PyText)):
+            # layout only: C03.I1 decides, by folding the body on sample texts, that `_indent` prefixes lines and inserts nothing else
+            return args[0]
         if self._block_string_like(fi, args):
             origins = [x.origin for x in args if isinstance(x, PyText) and x.origin is not None]
             if self.marker_mode and origins:
